@@ -1,7 +1,7 @@
 (* C05 driver.  One program per line (whitespace separated tokens):
      block := "(" (id stmt)* ")"
      stmt  := L x q | A x | U x | AF x | UF x | F f np p1..pnp block | C f n | O block | I block block | W block | P block
-            | R block | S els "[" (line value block)* "]" block | B | N | T | J l | G l | D block | X len k | V t v
+            | R block | S els "[" (line value block)* "]" block | B | N | T | J l | G l | D block | X len k | V t v viaconcept | VF t
    (q: 0 var 1 const 2 comptime; len,k,v: signed hex).
    Output: <offenders id:kind ...> TAB <rule_ok flow names labels consts as 0/1> *)
 open Model
@@ -49,7 +49,8 @@ let parse (toks : string array) : block =
     | "G" -> Goto (num ())
     | "D" -> Defer (block ())
     | "X" -> let l = z_of_hex (next ()) in let k = z_of_hex (next ()) in ConstIndex (l, k)
-    | "V" -> let t = num () in let v = z_of_hex (next ()) in ConstConv (t, v)
+    | "V" -> let t = num () in let v = z_of_hex (next ()) in let vc = next () = "1" in ConstConv (t, v, vc)
+    | "VF" -> ConstFrac (num ())
     | t -> raise (Parse ("bad statement token " ^ t))
   in
   block ()
